@@ -13,13 +13,14 @@ from ..dag import var
 
 
 def scenario(task):
-    nt, d, m, nsteps, B = task
+    nt, d, m, nsteps, B = task[:5]
+    levy = task[5] if len(task) > 5 else 'none'
     import torchsde
     from torchsde._core import methods, base_sde
     mk = sdes.Maker(symbolic=True, seed=4)
     sde = sdes.UFSDE('stratonovich', nt, d, m)
     mm = d if nt == 'diagonal' else (1 if nt == 'scalar' else m)
-    bm = sdes.KeyedBM(mk, B, mm)
+    bm = sdes.KeyedBM(mk, B, mm, levy=levy)
     fwd = methods.select('reversible_heun', 'stratonovich')(sde=base_sde.ForwardSDE(sde), bm=bm, dt=0.1, adaptive=False, rtol=0, atol=0,
                                                           dt_min=0, options={})
     rev = methods.select('reversible_heun', 'stratonovich')(sde=base_sde.ForwardSDE(sdes.MinusSDE(sde)), bm=torchsde.ReverseBrownian(bm),
@@ -72,8 +73,9 @@ def scenario(task):
 
 def tasks_for(tier):
     if tier == 'quick':
-        return [('diagonal', 2, 2, 1, 1), ('scalar', 2, 1, 1, 1), ('additive', 2, 2, 1, 1), ('general', 2, 2, 1, 1), ('diagonal', 1, 1, 2, 2)]
-    return [(nt, 2, 2, k, 2) for nt in ('diagonal', 'scalar', 'additive', 'general') for k in (1, 2, 3)]
+        return [('diagonal', 2, 2, 1, 1), ('scalar', 2, 1, 1, 1), ('additive', 2, 2, 1, 1), ('general', 2, 2, 1, 1), ('diagonal', 1, 1, 2, 2)] + \
+               [(nt, 2, 2, 1, 1, levy) for nt in ('diagonal', 'scalar', 'additive', 'general') for levy in ('space-time', 'davie')]
+    return [(nt, 2, 2, k, 2, levy) for nt in ('diagonal', 'scalar', 'additive', 'general') for k in (1, 2, 3) for levy in ('none', 'space-time', 'foster')]
 
 
 def run(ctx):
@@ -81,13 +83,14 @@ def run(ctx):
            'ReverseBrownian.__call__', 'methods.select')
     ctx.stubs += ['drift / diffusion: uninterpreted function symbols F_i(t, y), G_ij(t, y) (concrete sin-based implementation for validation)',
                   'Brownian motion: deterministic stub keyed by the queried interval, wrapped in the REAL ReverseBrownian for the reverse solve']
-    ctx.bounds = {'steps': '1-2 (quick) / 1-3', 'dims': 'd<=2, m<=2, batch<=2', 'step sizes': 'symbolic, different per step', 'noise types': 'all four'}
+    ctx.bounds = {'steps': '1-2 (quick) / 1-3', 'dims': 'd<=2, m<=2, batch<=2', 'step sizes': 'symbolic, different per step', 'noise types': 'all four', 'Levy area advertised by the Brownian motion': 'none, space-time, davie (quick); none, space-time, foster (thorough)'}
     ctx.assumptions += ['real arithmetic (numerical stability of the reverse recursion is outside the claim)']
     ctx.outside += ['rounding error growth of the reverse recursion']
     tasks = tasks_for(ctx.tier)
     twins = 0
     for t, (st, res) in zip(tasks, pmap(scenario, tasks)):
-        name = f"noise={t[0]} d={t[1]} m={t[2]} steps={t[3]} batch={t[4]}"
+        levy = t[5] if len(t) > 5 else 'none'
+        name = f"noise={t[0]} d={t[1]} m={t[2]} steps={t[3]} batch={t[4]} bm-levy={levy}"
         if st != 'ok':
             ctx.inconc(name, str(res)[:500]); continue
         ctx.paths += 1; ctx.queries += res['queries']; ctx.solver_s += res['solver_s']; ctx.validated += 1
@@ -99,7 +102,7 @@ def run(ctx):
         n, r, m = bad[0]
         if r != 'sat':
             ctx.inconc(name, f"{n}: {r}"); continue
-        ctx.violation(f"reversible_heun|{t[0]}|{n.split(':')[1].split('[')[0]}", f"reverse step does not reconstruct {n}",
+        ctx.violation(f"reversible_heun|{t[0]}|{n.split(':')[1].split('[')[0]}" + ('' if levy == 'none' else f'|bm-levy={levy}'), f"reverse step does not reconstruct {n}",
                       replay=dict(task=list(t)))
     ctx.twin('twin: reverse step returns y0 + 1 must fail', twins == len(tasks))
 
@@ -107,7 +110,9 @@ def run(ctx):
 def replay(data):
     """numeric forward/reverse round trip with the real sdeint on a smooth time-dependent SDE of the same noise type"""
     import torchsde
-    nt, d, m, nsteps, B = data['replay']['task']
+    task = data['replay']['task']
+    nt, d, m, nsteps, B = task[:5]
+    levy = task[5] if len(task) > 5 else 'none'
     torch.manual_seed(0)
     mm = d if nt == 'diagonal' else (1 if nt == 'scalar' else m)
 
@@ -127,7 +132,7 @@ def replay(data):
     sde = SDE()
     y0 = torch.randn(3, d, dtype=torch.float64)
     ts = torch.tensor([0.0, 0.17, 0.3, 0.55], dtype=torch.float64)
-    bm = torchsde.BrownianInterval(0.0, 0.55, size=(3, mm), dtype=torch.float64, entropy=3)
+    bm = torchsde.BrownianInterval(0.0, 0.55, size=(3, mm), dtype=torch.float64, entropy=3, levy_area_approximation=levy)
     ys, (f, g, z) = torchsde.sdeint(sde, y0, ts, bm=bm, method='reversible_heun', dt=0.05, extra=True)
     rys = torchsde.sdeint(Minus(sde), ys[-1], -ts.flip(0), bm=torchsde.ReverseBrownian(bm), method='reversible_heun', dt=0.05,
                           extra_solver_state=(-f, -g, z))
